@@ -102,11 +102,14 @@ def run(ctx):
         handle(ctx, viols, pairs, "concurrent-pair")
         pairs_lines = pr["lines"]
         ctx.cov["concurrent_pairs"] = pr["executed"]
+    # Leg E: the whole chain (real proxy -> real authenticator -> stateful identity provider), SSOLife.tla
+    from checks import life
+    ls = life.leg(ctx)
     for smp in ctx.cov["samples"]:
         for rec in (smp if isinstance(smp, list) else [smp]):
             if isinstance(rec, dict) and "conc" in rec and rec["conc"]:
                 rec["conc"].pop("cookie", None)
-    ctx.cov["evaluations"] = total_exec + hs["lines"] + pairs_lines
+    ctx.cov["evaluations"] = total_exec + hs["lines"] + pairs_lines + ls["lines"]
     ctx.cov["distinct_nontrivial"] = min(distinct, nontrivial) + hs["distinct"]
     ctx.cov["exhaustive"] = (not quick)
     ctx.cov["exhaustive_scope"] = ("every abstract one-step cell executed" if not quick else "TLC model exhaustive; implementation cells sampled (%d of %d)" % (s["distinct"], kept))
@@ -115,7 +118,8 @@ def run(ctx):
     ctx.assumptions += [
         "time is advanced by shifting the instants inside the sealed cookie (the proxy keeps no other session clock state); behaviour exactly at a deadline is not examined",
         "abstract classes are sampled inside: one seeded concretisation per cell and run (three in thorough)",
-        "the authenticator is a scripted fake speaking sso-auth's back-channel protocol",
+        "cells / histories / pairs: the authenticator is a scripted fake speaking sso-auth's back-channel protocol; whole-chain leg: the real "
+        "sso-auth (Okta provider behind its group cache) in front of a stateful fake identity provider, random walks of SSOLife.tla",
     ]
     return V.finish(ctx, RULE_TEXT[ctx.id])
 
@@ -124,6 +128,10 @@ def replay(ctx, path):
     rp = json.load(open(path))
     rec = rp["record"]
     V.build_harness(ctx)
+    if rp["kind"] == "life":
+        from checks import life
+        life.replay(ctx, rp)
+        return V.finish(ctx, RULE_TEXT[ctx.id])
     if rp["kind"] == "cell":
         one = os.path.join(ctx.scratch, "one.jsonl")
         cell = {"c": rec["c"], "pol": rec["pol"], "req": rec["req"], "ans": rec["ans"], "pred": rec["out"]}
